@@ -370,10 +370,13 @@ def insertKey (k : Key) : List Key → List Key
   | [] => [k]
   | x :: xs => if k = x then x :: xs else if Bytes.lt k x then k :: x :: xs else x :: insertKey k xs
 
+/-- the transaction's own pending write for `k`, as `Get` and the iterator see it -/
+def ownOf (t : Txn) (k : Key) : Option (Option Val) := if t.update then lookupW t.writes k else none
+
 /-- what a forward scan returns for key `k`: the value and the version it is surfaced at
 (pending writes are surfaced at the read timestamp and win ties) -/
 def scanItem (s : St) (t : Txn) (k : Key) : Option (Key × Val × Nat) :=
-  match (if t.update then lookupW t.writes k else none) with
+  match ownOf t k with
   | some (some v) => some (k, v, t.readTs)
   | some none => none
   | none =>
@@ -388,9 +391,11 @@ def scanTxn (c : MvccCfg) (fp : Key → Nat) (s : St) (id : Nat) (t : Txn) : St 
   let keys := (t.writes.map (·.1) ++ s.store.map (·.key)).foldr insertKey []
   let items := keys.filterMap (scanItem s t)
   let tracked := if t.update then items.filter (fun it => c.scanTrackAll || decide (it.2.2 < t.readTs)) else []
+  -- ghost: the tracked items that were served by the store (not by the txn's own pending write)
+  let served := tracked.filter (fun it => ownOf t it.1 = none)
   let t' := { t with reads := t.reads ++ tracked.map (fun it => fp it.1),
                      rkeys := tracked.map (fun it => it.1) ++ t.rkeys,
-                     rlog := tracked.map (fun it => (it.1, some it.2.1)) ++ t.rlog }
+                     rlog := served.map (fun it => (it.1, some it.2.1)) ++ t.rlog }
   (putTxn s id t', .scanned (items.map (fun it => (it.1, it.2.1))))
 
 def maxTs (st : List Entry) : Nat := st.foldr (fun e m => max e.ts m) 0
